@@ -4,6 +4,8 @@
  * Add-only; not referenced by the rest of the crate.
  */
 
+#![allow(missing_docs)]
+
 use super::*;
 
 /// Property-relevant view of one tracked operation.
